@@ -291,6 +291,7 @@ func init() {
 			k.PFresh = 88
 			k.WCycleCloser = 3
 			k.PGroupParam, k.PGroupRes = 30, 30
+			k.WDecorate, k.PDecoGroup = 5, 45 // group decorators registered before / after the constructors that consume the group
 			faulty := rapid.IntRange(0, 99).Draw(t, "faultmode") < 20
 			if faulty {
 				// failing functions: only the Defer toggle is compared (the
